@@ -102,7 +102,8 @@ namespace igris
         void *get()
         {
             void *ret = pool_alloc(&head);
-            _count--;
+            if (ret != nullptr)
+                _count--;
             return ret;
         }
 
